@@ -98,6 +98,10 @@ Leaf(f, x) ==
     [] f.ann.bytes = "BASE64URL_RAW" -> x.b64urlraw [] f.ann.bytes = "HEX" -> x.hex
     [] OTHER -> x.std
 
+\* "empty" for empty_behavior is proto.Size() = 0: a message without a populated field - or a well-known type
+\* (a leaf here: its JSON form is protojson's) at its default value, whatever that renders as ("0s", "", 0)
+EmptyMsgVal(v) == (v.t = "m" /\ v.empty) \/ (v.t = "s" /\ "wempty" \in DOMAIN v /\ v.wempty)
+
 \* Enc has a mode h ("honour"): TRUE = the message's annotations apply (the contract, at any depth);
 \* FALSE = plain proto3 JSON (every annotation of this message ignored, enum names as declared).
 \* The contract is Enc(s, x) = EncMsgVal(s, x, TRUE, TRUE): h stays TRUE for nested messages.
@@ -141,7 +145,7 @@ Members(s, M, x, h, md) ==
                IF ~p.has \/ ~HasMsg(s, v.type) THEN {}
                ELSE {<<f.ann.prefix \o kv[1], kv[2]>> : kv \in Members(s, MsgByName(s, v.type), v, md.fh, md)}
           [] h /\ f.ann.nullable -> IF p.has THEN {<<f.json, EncVal(s, f, v, h, md)>>} ELSE {<<f.json, JNull>>}
-          [] h /\ f.ann.empty \in {"NULL", "OMIT"} /\ p.has /\ v.t = "m" /\ v.empty ->
+          [] h /\ f.ann.empty \in {"NULL", "OMIT"} /\ p.has /\ EmptyMsgVal(v) ->
                IF f.ann.empty = "NULL" THEN {<<f.json, JNull>>} ELSE {}
           [] OTHER -> IF p.has THEN {<<f.json, EncVal(s, f, v, h, md)>>} ELSE {}
     : p \in Range(x.fs) }
@@ -181,7 +185,7 @@ NormMsgF(s, x, fl) ==
   IF ~HasMsg(s, x.type) THEN [t |-> "s", tok |-> x.tok]
   ELSE LET M == MsgByName(s, x.type) IN
        [t |-> "m", fs |-> { LET f == FieldOf(M, p.name)
-                                lost == p.has /\ p.v.t = "m" /\ p.v.empty /\ f.ann.empty \in {"NULL", "OMIT"}
+                                lost == p.has /\ EmptyMsgVal(p.v) /\ f.ann.empty \in {"NULL", "OMIT"}
                                 lostFlat == fl /\ p.has /\ p.v.t = "m" /\ f.ann.flatten /\ HasMsg(s, p.v.type)
                                             /\ LET j == EncMsgVal(s, p.v, TRUE, Contract) IN j.t = "obj" /\ j.m = {}
                             IN <<p.name, IF p.has /\ ~lost /\ ~lostFlat THEN NormValF(s, f, p.v, fl) ELSE [t |-> "unset"]>> : p \in Range(x.fs) }]
@@ -245,7 +249,7 @@ BackMsg(s, x, b) ==
           \A p \in Range(x.fs) : \E q \in Range(b.fs) :
              /\ q.name = p.name
              /\ LET f == FieldOf(M, p.name)
-                    mayLose == p.has /\ p.v.t = "m" /\ p.v.empty /\ f.ann.empty \in {"NULL", "OMIT"}
+                    mayLose == p.has /\ EmptyMsgVal(p.v) /\ f.ann.empty \in {"NULL", "OMIT"}
                 IN IF ~p.has THEN ~q.has
                    ELSE IF mayLose THEN (~q.has \/ BackVal(s, f, p.v, q.v))
                    ELSE q.has /\ BackVal(s, f, p.v, q.v)
@@ -267,7 +271,7 @@ SkelMsg(s, x) ==
   IF "fs" \notin DOMAIN x \/ ~HasMsg(s, x.type) THEN [t |-> "s", tok |-> x.tok]
   ELSE LET M == MsgByName(s, x.type) IN
        [t |-> "m", fs |-> { LET f == FieldOf(M, p.name)
-                                lost == p.has /\ p.v.t = "m" /\ p.v.empty /\ f.ann.empty \in {"NULL", "OMIT"}
+                                lost == p.has /\ EmptyMsgVal(p.v) /\ f.ann.empty \in {"NULL", "OMIT"}
                             IN <<p.name, IF p.has /\ ~lost
                                          THEN (IF StdJsonField(M, f) THEN [t |-> "present"] ELSE SkelVal(s, f, p.v))
                                          ELSE [t |-> "unset"]>> : p \in Range(x.fs) }]
